@@ -202,13 +202,11 @@ theorem excl_zero_pred (n : Nat) (P : PB) (h : WF n P) (hz : 0 < lo P ∨ hi P <
 
 /-! ## `P op c` : the steps are the images of the operand's steps -/
 
-private theorem tt : ∀ x : Rat, x ∈ ([] : List Rat) → True := fun _ _ => trivial
-
 /-- ★ `P + c` -/
 theorem numAdd_steps (n : Nat) (P : PB) (c : Rat) (h : WF n P) :
     numRight n .add P c = .ok ⟨P.left.map (· + c), P.right.map (· + c)⟩ :=
   numberOp_mono n (· + ·) P c h (fun _ => True) (fun _ _ => trivial) (fun _ _ => trivial)
-    (fun x y _ _ hxy => by simp only; linarith)
+    (fun x y _ _ hxy => by show _ ≤ _; linarith)
 
 /-- ★ `P - c` (coded as `P.add(-c)`) -/
 theorem numSub_steps (n : Nat) (P : PB) (c : Rat) (h : WF n P) :
@@ -318,7 +316,7 @@ theorem rsub_eq (n : Nat) (c : Rat) (P : PB) (h : WF n P) :
   show _ = neg n _
   have w : WF n ⟨P.left.map (· - c), P.right.map (· - c)⟩ :=
     wf_map_mono n P h (· - c) (fun _ => True) (fun _ _ => trivial) (fun _ _ => trivial)
-      (fun x y _ _ hxy => by simp only; linarith)
+      (fun x y _ _ hxy => by show _ ≤ _; linarith)
   rw [neg_ok n _ w]
   simp [List.map_reverse, Function.comp]
 
@@ -508,7 +506,7 @@ theorem pow_neg_even_steps (n : Nat) (P : PB) (h : WF n P) (k : Nat) (hk : Even 
   congr 1
   refine numberOp_anti n (fun x _ => x ^ k) P 0 h (fun x => x ≤ 0) hl hr ?_
   intro x y hx hy hxy
-  simp only
+  show y ^ k ≤ x ^ k
   rw [← Even.neg_pow hk y, ← Even.neg_pow hk x]
   exact pow_le_pow_left₀ (by linarith) (by linarith) k
 
@@ -534,5 +532,71 @@ theorem powW_steps (n : Nat) (P : PB) (h : WF n P) (g : Rat → Rat)
   simp only [Bool.false_eq_true, if_false]
   congr 1
   exact numberOpW_mono n P h g (fun x => 0 ≤ x) hl hr hg
+
+/-! ## non-vacuity: the hypotheses are met by concrete p-boxes, and the model computes the stated steps -/
+
+def exP : PB := ⟨[1, 2], [2, 4]⟩
+def exN : PB := ⟨[-4, -2], [-2, -1]⟩
+
+theorem exP_wf : WF 2 exP :=
+  ⟨rfl, rfl, by norm_num [exP], by norm_num [exP],
+    Forall₂.cons (by norm_num) (Forall₂.cons (by norm_num) Forall₂.nil)⟩
+
+theorem exN_wf : WF 2 exN :=
+  ⟨rfl, rfl, by norm_num [exN], by norm_num [exN],
+    Forall₂.cons (by norm_num) (Forall₂.cons (by norm_num) Forall₂.nil)⟩
+
+theorem exP_pos : 0 < lo exP := by norm_num [lo, exP]
+theorem exN_neg : hi exN < 0 := by norm_num [hi, exN]
+
+example : IsImage (· * (-3)) 1 2 (2 * (-3)) (1 * (-3)) := image_mul_nonpos 1 2 (-3) (by norm_num) (by norm_num)
+example : IsImage (1 / ·) 2 4 (1 / 4) (1 / 2) := image_recip_pos 2 4 (by norm_num) (by norm_num)
+example := numAdd_steps 2 exP 5 exP_wf
+example := numSub_steps 2 exP 5 exP_wf
+example := numMul_steps_pos 2 exP 3 exP_wf (by norm_num)
+example := numMul_steps_neg 2 exP (-3) exP_wf (by norm_num)
+example := numDiv_steps_pos 2 exP 4 exP_wf (by norm_num)
+example := numDiv_steps_neg 2 exP (-4) exP_wf (by norm_num)
+example := numRightK_eq 2 .npFloat .div exP 4 (Or.inr (by norm_num))
+example := neg_neg_box 2 exP exP_wf
+example := rsub_steps 2 7 exP exP_wf
+example := rsub_eq 2 7 exP exP_wf
+example := recip_steps 2 exP exP_wf (Or.inl exP_pos)
+example := recip_steps 2 exN exN_wf (Or.inr exN_neg)
+example := rdiv_steps_nonneg 2 3 exN exN_wf (Or.inr exN_neg) (by norm_num)
+example := rdiv_steps_nonpos 2 (-3) exP exP_wf (Or.inl exP_pos) (by norm_num)
+example := rdiv_eq 2 (-3) exP exP_wf (Or.inl exP_pos)
+example := mul_zero_box 2 exP exP_wf
+example := num_step_image_mul_neg 2 exP (-3) exP_wf (by norm_num) 0 (by norm_num)
+example := recip_step_image 2 exN exN_wf (Or.inr exN_neg) 1 (by norm_num)
+example := log_steps 2 exP exP_wf id (fun _ _ _ _ h => h) exP_pos
+example := log_nonpos_raises 2 exN [] [] (by norm_num [lo, exN])
+example := sqrt_steps 2 exP exP_wf id (fun _ _ _ _ h => h) exP_pos.le
+example := sqrt_neg_raises 2 exN [] [] (by norm_num [lo, exN])
+example := unary_mono_steps 2 exN exN_wf (fun x => 2 * x) (fun _ => True) (fun _ _ => trivial)
+  (fun _ _ => trivial) (fun x y _ _ h => by linarith)
+example := pow_pos_steps 2 exP exP_wf 3 exP_pos.le
+example := pow_neg_even_steps 2 exN exN_wf 2 (by decide) exN_neg.le
+example := pow_neg_odd_steps 2 exN exN_wf 3 (by decide) exN_neg.le
+example := powW_steps 2 exP exP_wf id (fun _ _ _ _ h => h) exP_pos.le
+
+example : numRightK 2 .npInt .mul exP (-3) = .ok ⟨[-12, -6], [-6, -3]⟩ := by
+  rw [numRightK_eq _ _ _ _ _ (Or.inl (by decide)), numMul_steps_neg 2 exP (-3) exP_wf (by norm_num)]
+  norm_num [exP]
+example : numLeftK 2 .npFloat .sub 7 exP = .ok ⟨[3, 5], [5, 6]⟩ := by
+  rw [numLeftK_eq _ _ _ _ _ (by decide), rsub_steps 2 7 exP exP_wf]
+  norm_num [exP]
+example : numLeftK 2 .pyInt .div 4 exN = .ok ⟨[-4, -2], [-2, -1]⟩ := by
+  apply numLeftK_div_ok
+  rw [rdiv_steps_nonneg 2 4 exN exN_wf (Or.inr exN_neg) (by norm_num)]
+  norm_num [exN]
+example : recip 2 exP = .ok ⟨[1/4, 1/2], [1/2, 1]⟩ := by decide +kernel
+example : powNat 2 exN 2 = some (.ok ⟨[1, 4], [4, 16]⟩) := by
+  rw [pow_neg_even_steps 2 exN exN_wf 2 (by decide) exN_neg.le]
+  norm_num [exN]
+example : numRightK 2 .npFloat .div exP 0 = .error .Other := by decide +kernel
+example : numRightK 2 .pyFloat .div exP 0 = .error .ZeroDivision := by decide +kernel
+/-- the reciprocal of a p-box straddling zero is NOT covered: here the constructor rejects it -/
+example : recip 2 ⟨[-2, 1], [-1, 3]⟩ = .error .Other := by decide +kernel
 
 end Pun.PBox.Num
